@@ -4,6 +4,10 @@ A case is either
   {"k": "num", "code": <locale code>, "v": <int>}
   {"k": "date", "now": <us since epoch>, "delta": <date - now, us>, "gmt": <minutes>,
    "rel": bool, "sh": bool, "full": bool, "form": "aware" | "naive" | "int" | "float"}
+  {"k": "day", "t": <us since epoch>, "gmt": <minutes>, "dow": bool, "form": "aware" | "naive"}      (format_day)
+  {"k": "list", "code": <locale code>, "parts": [<str>...]}                                         (Locale.list)
+  {"k": "closest", "sup": [<supported codes incl. en_US>], "codes": [<requested codes>]}            (Locale.get_closest)
+Date cases may carry "code" (default en_US) selecting the 12 h / zh_CN / 24 h clock.
 The clock is frozen by replacing the `datetime` name inside tornado.locale with a shim whose
 `datetime.now()` returns the case's `now`.
 """
@@ -92,11 +96,32 @@ def classify_output(s):
 
 
 def run_impl(case):
-    if case["k"] == "num":
+    k = case["k"]
+    if k == "num":
         r = _locale(case["code"]).friendly_number(case["v"])
         assert isinstance(r, str)
         return r
     L = _locale_mod()
+    if k == "list":
+        r = _locale(case["code"]).list(list(case["parts"]))
+        assert isinstance(r, str)
+        return r
+    if k == "closest":
+        saved = L._supported_locales
+        L._supported_locales = frozenset(case["sup"])
+        try:
+            r = L.Locale.get_closest(*case["codes"]).code
+        finally:
+            L._supported_locales = saved
+        assert isinstance(r, str)
+        return r
+    if k == "day":
+        d = EPOCH + datetime.timedelta(microseconds=case["t"])
+        if case.get("form") == "naive":
+            d = d.replace(tzinfo=None)
+        r = _locale("en_US").format_day(d, gmt_offset=case["gmt"], dow=case["dow"])
+        assert isinstance(r, str)
+        return r
     now = EPOCH + datetime.timedelta(microseconds=case["now"])
     date = now + datetime.timedelta(microseconds=case["delta"])
     form = case.get("form", "aware")
@@ -115,19 +140,34 @@ def run_impl(case):
     saved = L.datetime
     L.datetime = _state["shim"]
     try:
-        r = _locale("en_US").format_date(arg, gmt_offset=case["gmt"], relative=case["rel"],
-                                         shorter=case["sh"], full_format=case["full"])
+        r = _locale(case.get("code", "en_US")).format_date(arg, gmt_offset=case["gmt"], relative=case["rel"],
+                                                             shorter=case["sh"], full_format=case["full"])
     finally:
         L.datetime = saved
     assert isinstance(r, str)
-    return classify_output(r)
+    return r
+
+
+def _clock(code):
+    return "C12" if code in EN_CODES else "CZh" if code == "zh_CN" else "C24"
+
+
+def _gtexts(xs):
+    return G.glist([G.gbytes(x) for x in xs], "(list N)")
 
 
 def coq_input(case):
-    if case["k"] == "num":
+    k = case["k"]
+    if k == "num":
         return "(INum %s %s)" % (G.gbool(case["code"] in EN_CODES), G.gz(case["v"]))
-    return "(IDate %s %s %s %s %s %s)" % (G.gz(case["now"]), G.gz(case["delta"]), G.gz(case["gmt"]),
-                                          G.gbool(case["rel"]), G.gbool(case["sh"]), G.gbool(case["full"]))
+    if k == "day":
+        return "(IDay %s %s %s)" % (G.gz(case["t"]), G.gz(case["gmt"]), G.gbool(case["dow"]))
+    if k == "list":
+        return "(IList %s %s)" % (G.gbool(case["code"].startswith("fa")), _gtexts(case["parts"]))
+    if k == "closest":
+        return "(IClosest %s %s)" % (_gtexts(case["sup"]), _gtexts(case["codes"]))
+    return "(IDate %s %s %s %s %s %s %s)" % (_clock(case.get("code", "en_US")), G.gz(case["now"]), G.gz(case["delta"]), G.gz(case["gmt"]),
+                                             G.gbool(case["rel"]), G.gbool(case["sh"]), G.gbool(case["full"]))
 
 
 # ---------------------------------------------------------------- independent Python oracle
@@ -136,10 +176,12 @@ _UNIT = {"second": 1, "minute": 60, "hour": 3600}
 
 
 def py_check(case, o):
-    if isinstance(o, G.Tag):
-        return case["k"] == "date"
-    if not isinstance(o, str):
+    if not isinstance(o, str) or isinstance(o, G.Tag):
         return False
+    if case["k"] in ("day", "list"):
+        return True
+    if case["k"] == "closest":
+        return o in case["sup"] or o == "en_US"
     if case["k"] == "num":
         v = case["v"]
         if case["code"] in EN_CODES:
@@ -149,7 +191,7 @@ def py_check(case, o):
         return re.fullmatch(r"-?(0|[1-9]\d*)", o) is not None and o != "-0" and int(o) == v
     m = _PHRASE.fullmatch(o)
     if not m:
-        return False
+        return not o.endswith(" ago")     # an absolute date text
     n, u, plural = int(m.group(1)), _UNIT[m.group(2)], m.group(3) == "s"
     delta = case["delta"]
     if delta > 60 * US:
@@ -163,13 +205,28 @@ def num(code, v):
     return {"k": "num", "code": code, "v": v}
 
 
-def date(now, delta, gmt=0, rel=True, sh=False, full=False, form="aware"):
+def date(now, delta, gmt=0, rel=True, sh=False, full=False, form="aware", code="en_US"):
     t = now + delta
     if form == "int" and t % US != 0:
         form = "aware"
     if form == "float" and ((t % US) not in (0, 250000, 500000, 750000) or abs(t) > 2 ** 52):
         form = "naive"
-    return {"k": "date", "now": now, "delta": delta, "gmt": gmt, "rel": rel, "sh": sh, "full": full, "form": form}
+    return {"k": "date", "now": now, "delta": delta, "gmt": gmt, "rel": rel, "sh": sh, "full": full, "form": form, "code": code}
+
+
+def day(t, gmt=0, dow=True, form="aware"):
+    return {"k": "day", "t": t, "gmt": gmt, "dow": dow, "form": form}
+
+
+def lst(code, parts):
+    return {"k": "list", "code": code, "parts": list(parts)}
+
+
+def closest(sup, codes):
+    sup = list(sup)
+    if "en_US" not in sup:
+        sup.append("en_US")          # load_translations always adds the default locale
+    return {"k": "closest", "sup": sup, "codes": list(codes)}
 
 
 def _us(y, mo, d, h=0, mi=0, s=0, us=0):
@@ -197,6 +254,9 @@ def corpus_cases():
         # locale_test.py's examples
         num("en_US", 1000000), date(n0, -2 * US), date(n0, -120 * US), date(n0, -7200 * US),
         date(n0, -DAY, sh=True), date(n0, -2 * DAY, sh=True), date(n0, -300 * DAY, sh=True), date(n0, -500 * DAY, sh=True),
+        date(_us(2013, 4, 28, 18, 35), 0, full=True), day(_us(2013, 4, 28, 18, 35)), day(_us(2013, 4, 28, 18, 35), dow=False),
+        lst("en_US", []), lst("en_US", ["A"]), lst("en_US", ["A", "B"]), lst("en_US", ["A", "B", "C"]), lst("fa", ["A", "B", "C"]),
+        closest(["en_US", "pt_BR", "fr"], ["pt-br"]), closest(["en_US", "pt_BR", "fr"], ["FR_ca", "de"]), closest(["es"], []),
     ]
 
 
@@ -297,9 +357,59 @@ def gen_cases(rng, tier):
             c["nocoq"] = True      # implementation + py_check only (see coq_select)
         out.append(c)
     # ---------------- dates: random
+    date_codes = ["en_US", "en_US", "en_US", "en", "zh_CN", "de_DE", "fr_FR"]
     for _ in range(500 if quick else 4000):
         out.append(date(_rand_now(rng), _rand_delta(rng), gmt=rng.choice(GMTS) if rng.random() < 0.7 else rng.randrange(-900, 901),
-                        form=rng.choice(FORMS), **_flags(rng)))
+                        form=rng.choice(FORMS), code=rng.choice(date_codes), **_flags(rng)))
+    # ---------------- absolute texts: every hour of a day x clock kinds; calendar boundaries
+    for code in ("en_US", "zh_CN", "de_DE"):
+        for h in range(24):
+            t0 = _us(2021, 7, 4, h, rng.choice([0, 5, 9, 10, 59]), rng.randrange(60), rng.randrange(US))
+            out.append(date(t0 + 1000 * DAY, t0 - (t0 + 1000 * DAY), code=code, sh=False, rel=rng.random() < 0.5))
+    cal = []
+    for y in (1, 2, 4, 100, 400, 1582, 1600, 1899, 1900, 1901, 1969, 1970, 1971, 1999, 2000, 2001, 2023, 2024, 2025, 2038, 2100, 2400, 9998):
+        for (mo, d) in ((1, 1), (1, 31), (2, 28), (3, 1), (6, 30), (7, 1), (12, 31)):
+            if y == 1 and (mo, d) == (1, 1):
+                continue
+            cal.append(_us(y, mo, d, rng.randrange(24), rng.randrange(60), rng.randrange(60), rng.randrange(US)))
+        if y % 4 == 0 and (y % 100 != 0 or y % 400 == 0):
+            cal.append(_us(y, 2, 29, 12))
+    for t0 in cal:
+        out.append(day(t0, gmt=rng.choice([0, 0, 600, -600]), dow=rng.random() < 0.7, form=rng.choice(["aware", "naive"])))
+        if 1950 * 365 * DAY < t0 + 719528 * DAY < 2300 * 365 * DAY:    # keep `now` inside a comfortable range
+            out.append(date(t0 + 400 * DAY, -400 * DAY, gmt=rng.choice(GMTS), sh=rng.random() < 0.5, code=rng.choice(date_codes)))
+    lo, hi = _us(2, 1, 1), _us(9998, 12, 31)
+    for _ in range(150 if quick else 3000):
+        t0 = rng.randrange(lo, hi) if rng.random() < 0.5 else rng.randrange(_us(1900, 1, 1), _us(2200, 1, 1))
+        out.append(day(t0, gmt=rng.choice(GMTS) if rng.random() < 0.6 else rng.randrange(-1439, 1440), dow=rng.random() < 0.7,
+                       form=rng.choice(["aware", "naive"])))
+    if not quick:     # every civil day of several years (leap, non-leap, century, 400-year) at a random time
+        for y in (1899, 1900, 1901, 1999, 2000, 2001, 2023, 2024, 2100):
+            d0 = _us(y, 1, 1)
+            for k in range(366):
+                out.append(day(d0 + k * DAY + rng.randrange(DAY), dow=True))
+    # ---------------- Locale.list
+    words = ["A", "B", "C", "apples", "pears and plums", "x, y", "", " ", "and", "%(last)s", "50%", "\u0633\u06cc\u0628", "\u00e9t\u00e9"]
+    for n in range(0, 6):
+        for _ in range(6 if quick else 40):
+            out.append(lst(rng.choice(["en_US", "en_US", "fa", "fa_IR", "de_DE", "far"]), [rng.choice(words) for _ in range(n)]))
+    # ---------------- Locale.get_closest
+    sups = [["en_US"], ["en_US", "pt_BR", "fr", "es", "zh_CN"], ["en_US", "en", "fr_FR", "fr"], ["de", "de_DE", "DE"], ["en_US", "pt", "x_Y", "", "_"]]
+    req = ["", "en", "en_US", "en-us", "EN_us", "En", "pt-br", "PT_br", "pt_PT", "pt", "fr", "FR", "fr_CA", "fr-fr", "zh-Hans-CN", "zh_cn",
+           "zh-CN", "de", "DE", "de-at", "es_", "_es", "_", "-", "__", "x-y", "X_y", "a_b_c", "klingon", "e"]
+    for sup in sups:
+        for c in req:
+            out.append(closest(sup, [c]))
+    for _ in range(120 if quick else 2500):
+        sup = rng.choice(sups)
+        n = rng.choice([0, 1, 2, 2, 3, 4])
+        cs = []
+        for _ in range(n):
+            if rng.random() < 0.7:
+                cs.append(rng.choice(req))
+            else:
+                cs.append("".join(rng.choice("enptfrENPTBR_-_x") for _ in range(rng.randrange(0, 7))))
+        out.append(closest(sup, cs))
     return out
 
 
@@ -313,7 +423,13 @@ def coq_select(i, case):
 def nontrivial(case, o):
     if case["k"] == "num":
         return ("num", case["code"] in EN_CODES, case["v"])
-    return ("date", case["now"], case["delta"], case["gmt"], case["rel"], case["sh"], case["full"])
+    if case["k"] == "day":
+        return ("day", case["t"], case["gmt"], case["dow"])
+    if case["k"] == "list":
+        return ("list", case["code"].startswith("fa"), tuple(case["parts"])) if case["parts"] else None
+    if case["k"] == "closest":
+        return ("closest", tuple(case["sup"]), tuple(case["codes"])) if case["codes"] else None
+    return ("date", _clock(case.get("code", "en_US")), case["now"], case["delta"], case["gmt"], case["rel"], case["sh"], case["full"])
 
 
 def classify(case, o):
@@ -325,17 +441,33 @@ def classify(case, o):
         yield "num:digits=" + ("1-3" if nd <= 3 else "4-6" if nd <= 6 else "7-12" if nd <= 12 else "13-19" if nd <= 19 else "20+")
         yield "num:digits%%3=%d" % (nd % 3)
         return
+    if case["k"] == "day":
+        yield "day:dow=%s" % case["dow"]
+        yield "day:gmt=" + ("0" if case["gmt"] == 0 else "+" if case["gmt"] > 0 else "-")
+        return
+    if case["k"] == "list":
+        yield "list:n=%d" % len(case["parts"])
+        yield "list:fa=%s" % case["code"].startswith("fa")
+        return
+    if case["k"] == "closest":
+        yield "closest:n=%d" % len(case["codes"])
+        yield "closest:result=" + ("default-fallthrough" if o == "en_US" and "en_US" not in [c.replace("-", "_") for c in case["codes"]] else "matched")
+        return
     d = case["delta"]
     yield "date:" + ("future>=60s" if d >= 60 * US else "future<60s" if d > 0 else "now" if d == 0 else
                      "past<50s" if -d < 50 * US else "past<50min" if -d < 3000 * US else "past<1d" if -d < DAY else
                      "past<2d" if -d < 2 * DAY else "past<5d" if -d < 5 * DAY else "past<334d" if -d < 334 * DAY else "past>=334d")
-    yield "date:out=" + (str(o) if isinstance(o, G.Tag) else "relative-" + (_PHRASE.fullmatch(o).group(2) if isinstance(o, str) and _PHRASE.fullmatch(o) else "?"))
+    oc = classify_output(o) if isinstance(o, str) else o
+    yield "date:clock=" + _clock(case.get("code", "en_US"))
+    yield "date:out=" + (str(oc) if isinstance(oc, G.Tag) else "absolute-other-clock" if not (isinstance(o, str) and _PHRASE.fullmatch(o)) else "relative-" + (_PHRASE.fullmatch(o).group(2) if isinstance(o, str) and _PHRASE.fullmatch(o) else "?"))
     yield "date:flags=%s%s%s" % ("R" if case["rel"] else "-", "S" if case["sh"] else "-", "F" if case["full"] else "-")
     yield "date:form=" + case.get("form", "aware")
     yield "date:subsecond=" + ("yes" if d % US else "no")
 
 
 def signature(case, o):
+    if case["k"] in ("day", "list", "closest"):
+        return "locale-helper:" + case["k"]
     if case["k"] == "num":
         if isinstance(o, str) and o.startswith("-,"):
             return "friendly_number:comma-after-sign"
@@ -356,6 +488,22 @@ def shrink(case):
             if w != v:
                 yield dict(case, v=w)
         return
+    if case["k"] == "day":
+        if case["gmt"]:
+            yield dict(case, gmt=0)
+        if case["t"] % DAY:
+            yield dict(case, t=case["t"] - case["t"] % DAY)
+        return
+    if case["k"] == "list":
+        for j in range(len(case["parts"])):
+            yield dict(case, parts=case["parts"][:j] + case["parts"][j + 1:])
+        return
+    if case["k"] == "closest":
+        for j in range(len(case["codes"])):
+            yield dict(case, codes=case["codes"][:j] + case["codes"][j + 1:])
+        return
+    if case.get("code", "en_US") != "en_US":
+        yield dict(case, code="en_US")
     if case.get("form", "aware") != "aware":
         yield dict(case, form="aware")
     if case["gmt"]:
